@@ -184,7 +184,8 @@ class PoolController(_Base):
 
     # -- hooks
     def label_of(self, fn, args, kwargs):
-        info = args[2] if len(args) > 2 else None
+        a = tuple(getattr(fn, "args", ())) + tuple(args)    # fn may be a functools.partial
+        info = a[2] if len(a) > 2 else None
         path = getattr(info, "path", None)
         return (tuple(path), 0) if path is not None else (getattr(fn, "__name__", "?"), 0)
 
